@@ -3,7 +3,7 @@ From V.lib Require Import Base.
 From V.c05 Require Import C05CodecModel.
 From V.c02 Require Import C02AggModel C02AggFragProofs C02AggScanProofs.
 From V.c12 Require Import C12Model C12Spec C12Sidx C12PartProofs C12BoundProofs C12ShapeProofs C12EncProofs C12SidxProofs.
-From V.c12 Require Import C12Bytes C12BytesProofs C12StreamProofs.
+From V.c12 Require Import C12Bytes C12BytesProofs C12StreamProofs C12EptProofs.
 
 (* Every accepted top-level sequence, every flag combination: the children of the fragments of the
    segments, flattened in order, are exactly the emsg/moof/mdat boxes of the input in order (minus
@@ -182,6 +182,43 @@ Theorem C12_sidx_pinned_refuted :
              update_sidx f true false 9 = Err).
 Proof. exact sidx_pinned_refuted. Qed.
 Print Assumptions C12_sidx_pinned_refuted.
+
+(* earliest_presentation_time: exactly what UpdateSidx writes (repo commit 48b8dea).  Version 1 (64-bit field);
+   0 unless nonZeroEPT; with nonZeroEPT seg_pt of the first segment: the presentation time - tfdt base time of
+   its traf + its composition time offset (signed: trun version 1), as Go's uint64(int64(base) + cto), i.e.
+   mod 2^64 - of the FIRST SAMPLE of the reference track in the first segment, in whichever fragment, track
+   fragment and trun that sample sits (fragments without the reference track, trafs without samples and empty
+   truns in front of it are skipped); if the track has trafs but no sample in the segment, the base time of the
+   first of them; if the segment does not hold the track, 0.  Not claimed: that this is the minimum over all
+   samples (it is when no later sample is presented before the first one, e.g. closed GOPs). *)
+Theorem C12_sidx_ept : forall (f : file) (add nz : bool) (newtag : N) (f' : file),
+  update_sidx f add nz newtag = Ok f' ->
+  (add = true \/ f_sidxs f <> []) ->
+  exists sx rest moov rt s0 srest,
+    f_sidxs f' = sx :: rest /\ f_moov f = Some moov /\ find_reference_trak (b_traks moov) = Ok rt /\
+    f_segs f = s0 :: srest /\
+    b_version (sx_box sx) = 1 /\
+    b_ept (sx_box sx) = (if nz then seg_pt (k_id rt) s0 else 0) /\
+    (forall before t after,
+        ref_trafs (k_id rt) s0 = before ++ t :: after ->
+        forallb (fun u => negb (traf_has_sample u)) before = true -> traf_has_sample t = true ->
+        seg_pt (k_id rt) s0 = pt_of (t_base t) (t_cto0 t)).
+Proof. exact sidx_ept. Qed.
+Print Assumptions C12_sidx_ept.
+
+(* The text before 48b8dea looked at the first fragment and the first trun only.  `ftyp moov(video 1, audio 2) styp
+   moof(audio) mdat moof(video: base 90000, first offset 3000) mdat`: it wrote 0 although a non-zero time was asked
+   for (now 93000); a video traf whose first trun is empty: it wrote the DECODE time 90000 (now 93000); and a negative
+   offset (-3000) gives 87000, nonZeroEPT = false gives 0.  Replayed on the real code: known_findings/C12.json C12-F7. *)
+Theorem C12_sidx_ept_pinned_refuted :
+  (exists f, assemble (mkOpts false false) e_late = Ok f /\ map (seg_pt 1) (f_segs f) = [93000] /\
+             ept_of (update_sidx_eptold f true true 9) = Some 0 /\ ept_of (update_sidx f true true 9) = Some 93000) /\
+  (exists f, assemble (mkOpts false false) e_trun2 = Ok f /\ map (seg_pt 1) (f_segs f) = [93000] /\
+             ept_of (update_sidx_eptold f true true 9) = Some 90000 /\ ept_of (update_sidx f true true 9) = Some 93000) /\
+  (exists f, assemble (mkOpts false false) e_neg = Ok f /\
+             ept_of (update_sidx f true true 9) = Some 87000 /\ ept_of (update_sidx f true false 9) = Some 0).
+Proof. exact sidx_ept_pinned_refuted. Qed.
+Print Assumptions C12_sidx_ept_pinned_refuted.
 
 (* Which track is "the reference track": the first video track of the moov, else the first audio
    track, else the first track - by position in the moov, not by track id; None of the three exists
